@@ -17,6 +17,20 @@ CHECKS = {
         "technique": "contract-based deductive verification: own VC generator over the real AST + z3",
         "design_ref": "DESIGN.md section 4 / C11",
     },
+    "C01": {
+        "level": "proof",
+        "level_text": "Model.__init__, BasicBlock._compile, BasicBlock.execute and Model.model are verified with symbolic symbol sets, expressions and CSE program (any sizes, both CSE settings): layout, per-entry parameter scopes, the temporaries-threading loop invariant and by-name storage give value(state s) = ev(state_model[s], named inputs), the same term with CSE on and off.",
+        "level_note": "sympy cse/simplify/lambdify are assumed contracts (D-cse, D-simp, D-lam) discharged per program on a seeded corpus (bounded over programs, not counted as proved); floats as reals; " + TB,
+        "technique": "contract-based deductive verification: own VC generator over the real AST (invariant + map rules) + z3",
+        "design_ref": "DESIGN.md section 4 / C01",
+    },
+    "C08": {
+        "level": "proof",
+        "level_text": "Python: _compile/execute verified against one spec term for both CSE settings (on/off equality is a corollary). C++: cpp.BasicBlock.compile verified to emit every temporary exactly once, in cse order, before the targets in statement order, for any program.",
+        "level_note": "D-cse/D-simp/D-ccode assumed (per-program checks bounded over the corpus); floats as reals; " + TB,
+        "technique": "contract-based deductive verification: own VC generator over the real AST + z3",
+        "design_ref": "DESIGN.md section 4 / C08",
+    },
     "C03": {
         "level": "proof",
         "level_text": "process/control/sensor_jacobian are verified for symbolic numbers of states, calibrations, controls and readings: every cell of the result equals, by name, ev(diff(output r, variable s)) under the environment of the named inputs; the flattened-program layout they rely on is proved to be established by _construct_process (C04) / stated as representation invariant for sensors.",
